@@ -14,7 +14,7 @@ from ..core import digest
 META = {
     "title": "Empirical quantiles exact with ties / out of range",
     "level": "exploration",
-    "rule": ("exhaustive sub-space: every multiset of size 1..7 over a 6-letter alphabet, mapped to 5 value alphabets "
+    "rule": ("exhaustive sub-space: every multiset of size 1..7 over a 6-letter alphabet, mapped to 10 value alphabets "
              "(ints, unsigned ints in uint8/32/64 storage, 0.1*k reals, negatives, mixed magnitude), in sorted/reversed/shuffled order, queried at the 6 letters, 5 "
              "mid-gaps, below-min and above-max (13 values), through greater_equal_ecdf, less_equal_ecdf, get_quantiles and "
              "binned_ecdf; plus random samples (10^2..10^5, heavy ties, int/float, list/array, cdf= precomputed). A query is "
@@ -22,14 +22,14 @@ META = {
              "sample values; distinct = (alphabet, multiset, order, v)."),
     "assumptions": ["integer counting with numpy comparisons is the reference", "samples are finite (no NaN): the property's domain"],
     "deciding": ["stats.greater_equal_ecdf", "stats.less_equal_ecdf"],
-    "exhaustive_tiers": {"quick": {"multisets size<=7 over 6 letters": 1715, "value alphabets": 8, "orders": 3, "queries": "13 (+3 integer-typed queries for the real alphabets)"},
-                         "thorough": {"multisets size<=7 over 6 letters": 1715, "value alphabets": 8, "orders": 3, "queries": "13 (+3 integer-typed queries for the real alphabets)"}},
+    "exhaustive_tiers": {"quick": {"multisets size<=7 over 6 letters": 1715, "value alphabets": 10, "orders": 3, "queries": "13 (+3 integer-typed queries for the real alphabets)"},
+                         "thorough": {"multisets size<=7 over 6 letters": 1715, "value alphabets": 10, "orders": 3, "queries": "13 (+3 integer-typed queries for the real alphabets)"}},
 }
 
 META["added"] = 'Added: an eighth alphabet stored in single precision with double-precision queries closer to a sample value than the float32 spacing (counted exactly in double precision), queries of -inf / +inf (only NaN is outside the domain). unsigned and narrow integer dtypes, a preallocated sample buffer queried, refilled in place and queried again, non-numeric results scored as violations (not monitor errors). int64 values beyond 2**53 with integer queries. integer-typed queries on real-valued samples. ecdf() results edited in place; infinite sample values.'
 MANIFEST = {
     "technique": "runtime post-conditions on the real ecdf functions (all call sites) vs integer counting; exhaustive small multisets + random heavy-tie samples",
-    "level_text": "All 1715 multisets of size<=7 over 6 letters x 4 value alphabets x 3 orders x 13 query positions are enumerated completely (exhaustive for that sub-space) through the real functions under an exact counting oracle, plus 10^3 (quick) / 10^5 (thorough) random large samples; sum and monotonicity identities checked per sample.",
+    "level_text": "All 1715 multisets of size<=7 over 6 letters x 10 value alphabets x 3 orders x 13 query positions are enumerated completely (exhaustive for that sub-space) through the real functions under an exact counting oracle, plus 10^3 (quick) / 10^5 (thorough) random large samples; sum and monotonicity identities checked per sample.",
     "level_note": "Trusted: numpy comparison/counting. Infinite domain of real-valued samples is sampled beyond the exhaustive sub-space.",
 }
 
@@ -52,9 +52,14 @@ ALPHABETS = {
     "bigint": [2 ** 53, 2 ** 53 + 1, 2 ** 53 + 3, 2 ** 53 + 4, 2 ** 53 + 6, 2 ** 53 + 7],
     # a single-precision sample (values exact in float32); double-precision queries then also fall within one float32 spacing of a sample value
     "real32": [-2.5, 0.0, 0.125, 1.5, 2.25, 3.125],
+    # signed integers on both sides of zero in integer storage: the mid-gap queries are negative and positive non-integers (v = -2.5 lies
+    # between -3 and -2: floor and truncation differ there)
+    "negint": [-7, -4, -3, -2, 1, 2],
+    # neighbouring whole numbers at the top of the range of catalog sizes: 1e5 +- 1 differ by 1e-5 of their value
+    "size1e5": [99998, 99999, 100000, 100001, 100002, 100004],
 }
 BIG_GAPS = [2 ** 53 + 2, 2 ** 53 + 5, 2 ** 53 + 2, 2 ** 53 + 5, 2 ** 53 + 2]
-DTYPES = {"inf": ["float64"], "bigint": ["int64"], "int": ["int64", "int32"], "uint": ["uint64", "uint8", "uint32"], "real": ["float64", "float32x"], "real32": ["float32"], "neg": ["float64"], "mixed": ["float64"]}
+DTYPES = {"inf": ["float64"], "bigint": ["int64"], "int": ["int64", "int32"], "uint": ["uint64", "uint8", "uint32"], "real": ["float64", "float32x"], "real32": ["float32"], "neg": ["float64"], "mixed": ["float64"], "negint": ["int64", "int32", "int8"], "size1e5": ["int64", "float64", "int32"]}
 
 
 def _stats():
@@ -237,7 +242,7 @@ def run(ctx):
                         dt = "float64"          # float32 samples would change the values themselves; kept as float64
                     xa = numpy.asarray(xv, dtype=dt)
                     for qi, q in enumerate(queries):
-                        qq = q if (aname not in ("int", "uint", "bigint") or qi >= 6) else int(q)
+                        qq = q if (aname not in ("int", "uint", "bigint", "negint", "size1e5") or qi >= 6) else int(q)
                         ctx.call(stats.greater_equal_ecdf, xa, qq)
                         ctx.call(stats.less_equal_ecdf, xa, qq)
                         ctx.call(stats.get_quantiles, xa if oi else xa.tolist(), qq)
